@@ -1,3 +1,787 @@
 package main
 
-func replayMain(args []string) {}
+// replay: executes behaviours of spec/system/Resources.tla and Refs.tla on the real runtime.
+//
+// A behaviour is {"id":n, "cfg":{...}, "steps":[label...]}; a label is the `last` record of the
+// specification. The steps between "begin" and the step that ends the transaction (commit, abort,
+// or a step the specification predicts to fail) are rendered into ONE Cadence transaction; after
+// every step the transaction logs the description of every slot and every storage path, which is
+// compared with the `st` field the specification computed. At every commit a fresh script walks
+// storage (ids, uuids, location paths) and the committed ledger is decoded by harness/health
+// (slab health, root counts, resource population); both are compared with the model.
+
+import (
+	"encoding/json"
+	"errors"
+	"fmt"
+	"os"
+	"runtime"
+	"sort"
+	"strconv"
+	"strings"
+	"sync/atomic"
+
+	"github.com/onflow/cadence"
+	"github.com/onflow/cadence/common"
+	"github.com/onflow/cadence/parser"
+	cdcrt "github.com/onflow/cadence/runtime"
+	"github.com/onflow/cadence/sema"
+
+	"verifharness/health"
+	"verifharness/host"
+	"verifharness/util"
+)
+
+type Place struct {
+	K string `json:"k"`
+	A int    `json:"a"`
+	B int    `json:"b"`
+}
+
+type PopEntry struct {
+	U int    `json:"u"`
+	P string `json:"p"`
+}
+
+type Step struct {
+	Op    string     `json:"op"`
+	U     int        `json:"u"`
+	W     int        `json:"w"`
+	M     int        `json:"m"`
+	I     int        `json:"i"`
+	J     int        `json:"j"`
+	K     int        `json:"r"` // reference variable index (Refs)
+	Kind  string     `json:"kind"`
+	Big   bool       `json:"big"`
+	Fn    bool       `json:"fn"`
+	Sp    []Place    `json:"sp"`
+	Mp    []Place    `json:"mp"`
+	Dp    []Place    `json:"dp"`
+	Tp    []Place    `json:"tp"`
+	Dead  []int      `json:"dead"`
+	Ev    []int      `json:"ev"`
+	St    []string   `json:"st"`
+	Pop   []PopEntry `json:"pop"`
+	Roots []int      `json:"roots"`
+	Res   string     `json:"res"`
+	V     int        `json:"v"`
+	Ty    string     `json:"ty"`
+	Acct  int        `json:"acct"`
+	Path  int        `json:"path"`
+}
+
+type Cfg struct {
+	Slots []string `json:"slots"` // representation of slot i+1: var | dict | arr
+	Accts int      `json:"accts"`
+	Paths int      `json:"paths"`
+	Refs  int      `json:"refs"`
+}
+
+type Beh struct {
+	ID    int    `json:"id"`
+	Cfg   Cfg    `json:"cfg"`
+	Steps []Step `json:"steps"`
+}
+
+type Fail struct {
+	ID      int    `json:"id"`
+	Engine  string `json:"engine"`
+	Kind    string `json:"kind"`
+	Op      string `json:"op,omitempty"`
+	Form    string `json:"form,omitempty"`
+	Harness bool   `json:"harness,omitempty"`
+	Step    int    `json:"step"`
+	Msg     string `json:"msg"`
+	Src     string `json:"src,omitempty"`
+	Beh     *Beh   `json:"beh,omitempty"`
+}
+
+const nType = "{T.N}"
+
+var acctAddr = []common.Address{host.Addr(2), host.Addr(3), host.Addr(4)}
+
+// renderer of one transaction
+type txr struct {
+	cfg Cfg
+	sb  strings.Builder
+	n   int
+}
+
+func (t *txr) tmp(p string) string { t.n++; return fmt.Sprintf("%s%d", p, t.n) }
+func (t *txr) line(f string, a ...any) {
+	t.sb.WriteString("    ")
+	fmt.Fprintf(&t.sb, f, a...)
+	t.sb.WriteString("\n")
+}
+
+func slotVar(cfg Cfg, i int) string {
+	switch cfg.Slots[i-1] {
+	case "dict":
+		return fmt.Sprintf("d%d", i)
+	case "arr":
+		return fmt.Sprintf("a%d", i)
+	}
+	return fmt.Sprintf("s%d", i)
+}
+
+// slotLval: assignable optional-typed expression of a slot (var / dict representations)
+func slotLval(cfg Cfg, i int) string {
+	if cfg.Slots[i-1] == "dict" {
+		return fmt.Sprintf("d%d[%d]", i, i)
+	}
+	return fmt.Sprintf("s%d", i)
+}
+
+// optional reference to the content of a slot
+func slotOptRef(cfg Cfg, i int) string {
+	switch cfg.Slots[i-1] {
+	case "dict":
+		return fmt.Sprintf("(&d%d[%d] as &%s?)", i, i, nType)
+	case "arr":
+		return fmt.Sprintf("T.first(&a%d as &[%s])", i, nType)
+	}
+	return fmt.Sprintf("(&s%d as &%s?)", i, nType)
+}
+
+func storePath(p Place) string { return fmt.Sprintf("/storage/p%d", p.B) }
+func acctName(a int) string    { return fmt.Sprintf("A%d", a) }
+
+// rootRef: non-optional reference expression to the resource at a root place
+func (t *txr) rootRef(p Place) string {
+	if p.K == "slot" {
+		if t.cfg.Slots[p.A-1] == "arr" {
+			return fmt.Sprintf("(&a%d[0] as &%s)", p.A, nType)
+		}
+		return slotOptRef(t.cfg, p.A) + "!"
+	}
+	return fmt.Sprintf("%s.storage.borrow<&%s>(from: %s)!", acctName(p.A), nType, storePath(p))
+}
+
+func sel(prev string, p Place) string {
+	switch p.K {
+	case "child":
+		return prev + ".child!"
+	case "kid":
+		return fmt.Sprintf("%s.kids[%d]", prev, p.B)
+	case "dict":
+		return fmt.Sprintf("%s.dict[%d]!", prev, p.B)
+	}
+	panic("sel " + p.K)
+}
+
+// bindParent binds (statement by statement) a reference to the resource that holds the last
+// place of the path and returns the variable name. Paths of length 1 have no parent.
+func (t *txr) bindParent(path []Place) string {
+	if len(path) < 2 {
+		return ""
+	}
+	v := t.tmp("x")
+	t.line("let %s = %s", v, t.rootRef(path[0]))
+	for _, p := range path[1 : len(path)-1] {
+		nv := t.tmp("x")
+		t.line("let %s = %s", nv, sel(v, p))
+		v = nv
+	}
+	return v
+}
+
+// take renders the removal of the resource at the end of path and returns an expression of type
+// @{T.N} (to be used exactly once) denoting it.
+func (t *txr) take(path []Place) string {
+	last := path[len(path)-1]
+	par := t.bindParent(path)
+	switch last.K {
+	case "slot":
+		switch t.cfg.Slots[last.A-1] {
+		case "var":
+			o := t.tmp("o")
+			t.line("let %s <- s%d <- nil", o, last.A)
+			return o + "!"
+		case "dict":
+			o := t.tmp("o")
+			if t.n%2 == 0 {
+				t.line("let %s <- d%d.remove(key: %d)", o, last.A, last.A)
+			} else {
+				t.line("let %s <- d%d[%d] <- nil", o, last.A, last.A)
+			}
+			return o + "!"
+		default:
+			o := t.tmp("t")
+			t.line("let %s <- a%d.removeFirst()", o, last.A)
+			return o
+		}
+	case "store":
+		o := t.tmp("o")
+		t.line("let %s <- %s.storage.load<@%s>(from: %s)", o, acctName(last.A), nType, storePath(last))
+		return o + "!"
+	case "child":
+		o := t.tmp("t")
+		t.line("let %s <- %s.takeChild()", o, par)
+		return o
+	case "kid":
+		o := t.tmp("t")
+		t.line("let %s <- %s.takeKid(%d)", o, par, last.B)
+		return o
+	case "dict":
+		o := t.tmp("t")
+		t.line("let %s <- %s.takeDict(%d)", o, par, last.B)
+		return o
+	}
+	panic("take " + last.K)
+}
+
+// put renders moving the resource expression x into the place at the end of path.
+func (t *txr) put(path []Place, x string) {
+	last := path[len(path)-1]
+	par := t.bindParent(path)
+	switch last.K {
+	case "slot":
+		switch t.cfg.Slots[last.A-1] {
+		case "arr":
+			t.line("a%d.append(<- %s)", last.A, x)
+		default:
+			t.line("%s <-! %s", slotLval(t.cfg, last.A), x)
+		}
+	case "store":
+		t.line("%s.storage.save(<- %s, to: %s)", acctName(last.A), x, storePath(last))
+	case "child":
+		t.line("%s.setChild(<- %s)", par, x)
+	case "kid":
+		t.line("%s.addKid(%d, <- %s)", par, last.B, x)
+	case "dict":
+		t.line("%s.putDict(%d, <- %s)", par, last.B, x)
+	}
+}
+
+func padOf(big bool) int {
+	if big {
+		return 12
+	}
+	return 0
+}
+
+func (t *txr) stateLog() {
+	var parts []string
+	for i := range t.cfg.Slots {
+		parts = append(parts, "T.d("+slotOptRef(t.cfg, i+1)+")")
+	}
+	for a := 1; a <= t.cfg.Accts; a++ {
+		for p := 1; p <= t.cfg.Paths; p++ {
+			parts = append(parts, fmt.Sprintf("T.d(A%d.storage.borrow<&%s>(from: /storage/p%d))", a, nType, p))
+		}
+	}
+	e := parts[0]
+	for _, p := range parts[1:] {
+		e += ".concat(\"|\").concat(" + p + ")"
+	}
+	t.line("log(%s)", e)
+}
+
+func tyExpr(ty string) string {
+	if ty == "N" {
+		return nType
+	}
+	return "T." + ty
+}
+
+func (t *txr) step(s Step) {
+	switch s.Op {
+	case "create":
+		t.put(s.Dp, fmt.Sprintf("T.mk(%d, %q, %d)", s.U, s.Kind, padOf(s.Big)))
+	case "move", "badmove":
+		x := t.take(s.Sp)
+		if s.Fn {
+			x = "T.pass(<- " + x + ")"
+		}
+		t.put(s.Dp, x)
+	case "swap":
+		t.line("%s <-> %s", slotLval(t.cfg, s.I), slotLval(t.cfg, s.J))
+	case "shift":
+		var x string
+		if s.W == 0 {
+			x = fmt.Sprintf("T.mk(%d, %q, %d)", s.U, s.Kind, padOf(s.Big))
+		} else {
+			x = t.take(s.Sp)
+		}
+		mid := s.Mp[len(s.Mp)-1]
+		par := t.bindParent(s.Mp)
+		var old string
+		switch mid.K {
+		case "slot":
+			o := t.tmp("o")
+			t.line("let %s <- %s <- %s", o, slotLval(t.cfg, mid.A), x)
+			old = o + "!"
+		case "child":
+			o := t.tmp("t")
+			t.line("let %s <- %s.swapChild(<- %s)", o, par, x)
+			old = o
+		case "kid":
+			o := t.tmp("t")
+			t.line("let %s <- %s.swapKid(%d, <- %s)", o, par, mid.B, x)
+			old = o
+		case "dict":
+			o := t.tmp("t")
+			t.line("let %s <- %s.swapDict(%d, <- %s)", o, par, mid.B, x)
+			old = o
+		}
+		t.put(s.Dp, old)
+	case "destroy":
+		x := t.take(s.Sp)
+		t.line("destroy %s", x)
+	case "peek":
+	case "takeref":
+		last := s.Tp[len(s.Tp)-1]
+		switch {
+		case len(s.Tp) == 1 && last.K == "slot":
+			if t.cfg.Slots[last.A-1] == "arr" {
+				t.line("r%d = &a%d[0] as &%s", s.K, last.A, nType)
+			} else {
+				t.line("r%d = %s", s.K, slotOptRef(t.cfg, last.A))
+			}
+		case len(s.Tp) == 1:
+			t.line("r%d = %s.storage.borrow<&%s>(from: %s)", s.K, acctName(last.A), nType, storePath(last))
+		default:
+			par := t.bindParent(s.Tp)
+			switch last.K {
+			case "child":
+				t.line("r%d = %s.child", s.K, par)
+			case "kid":
+				t.line("r%d = %s.kids[%d]", s.K, par, last.B)
+			case "dict":
+				t.line("r%d = %s.dict[%d]", s.K, par, last.B)
+			}
+		}
+	case "borrow":
+		t.line("r%d = %s.storage.borrow<&%s>(from: /storage/p%d)", s.K, acctName(s.Acct), tyExpr(s.Ty), s.Path)
+		t.line("log(r%d == nil ? \"nil\" : \"some\")", s.K)
+	case "useref":
+		t.line("log(\"use:\".concat(r%d!.id.toString()))", s.K)
+	case "abort":
+		t.line("panic(\"abort\")")
+	default:
+		panic("unknown op " + s.Op)
+	}
+}
+
+func render(cfg Cfg, steps []Step) string {
+	t := &txr{cfg: cfg}
+	t.sb.WriteString("import T from 0x1\ntransaction {\n  prepare(")
+	for a := 1; a <= cfg.Accts; a++ {
+		if a > 1 {
+			t.sb.WriteString(", ")
+		}
+		fmt.Fprintf(&t.sb, "A%d: auth(Storage) &Account", a)
+	}
+	t.sb.WriteString(") {\n")
+	for i, rep := range cfg.Slots {
+		switch rep {
+		case "var":
+			t.line("var s%d: @%s? <- nil", i+1, nType)
+		case "dict":
+			t.line("var d%d: @{Int: %s} <- {}", i+1, nType)
+		case "arr":
+			t.line("var a%d: @[%s] <- []", i+1, nType)
+		}
+	}
+	for k := 1; k <= cfg.Refs; k++ {
+		t.line("var r%d: &%s? = nil", k, nType)
+	}
+	for _, s := range steps {
+		if s.Op == "commit" {
+			break
+		}
+		t.step(s)
+		if s.Op != "abort" {
+			t.stateLog()
+		}
+	}
+	if len(steps) == 0 || steps[len(steps)-1].Op != "abort" {
+		for i := range cfg.Slots {
+			t.line("destroy %s", slotVar(cfg, i+1))
+		}
+	}
+	t.sb.WriteString("  }\n}\n")
+	return t.sb.String()
+}
+
+func projectionScript(cfg Cfg) string {
+	var sb strings.Builder
+	sb.WriteString("import T from 0x1\naccess(all) fun main(): [String] {\n  var out: [String] = []\n")
+	for a := 1; a <= cfg.Accts; a++ {
+		fmt.Fprintf(&sb, "  let A%d = getAuthAccount<auth(Storage) &Account>(%s)\n", a, acctAddr[a-1].HexWithPrefix())
+		for p := 1; p <= cfg.Paths; p++ {
+			fmt.Fprintf(&sb, "  out.appendAll(T.w(A%d.storage.borrow<&%s>(from: /storage/p%d), \"A%d/p%d\"))\n", a, nType, p, a, p)
+		}
+		fmt.Fprintf(&sb, "  out.append(\"#paths A%d=\".concat(A%d.storage.storagePaths.length.toString()))\n", a, a)
+	}
+	sb.WriteString("  return out\n}\n")
+	return sb.String()
+}
+
+func formOf(s Step) string {
+	k := func(p []Place) string {
+		if len(p) == 0 {
+			return "new"
+		}
+		return p[len(p)-1].K
+	}
+	switch s.Op {
+	case "move", "badmove":
+		f := k(s.Sp) + ">" + k(s.Dp)
+		if s.Fn {
+			f += "(fn)"
+		}
+		return f
+	case "shift":
+		return k(s.Sp) + ">" + k(s.Mp) + ">" + k(s.Dp)
+	case "create":
+		return "new>" + k(s.Dp)
+	case "destroy":
+		return k(s.Sp)
+	case "takeref":
+		if len(s.Tp) == 1 {
+			return k(s.Tp)
+		}
+		return s.Tp[0].K + ".." + k(s.Tp)
+	case "useref", "borrow":
+		return s.Res
+	}
+	return ""
+}
+
+func errKindOK(want, class string) bool {
+	switch want {
+	case "abort":
+		return class == "user:PanicError"
+	case "err:loss":
+		return class == "user:ResourceLossError"
+	case "err:overwrite":
+		return class == "user:OverwriteError"
+	case "err:invalidated":
+		return class == "user:InvalidatedResourceReferenceError"
+	case "err:deref-nil", "err:deref-type":
+		return class == "user:DereferenceError"
+	case "err:borrow-type":
+		return class == "user:StoredValueTypeMismatchError" || class == "user:ForceCastTypeMismatchError"
+	}
+	return false
+}
+
+func endsTx(s Step) bool {
+	return s.Op == "commit" || s.Op == "abort" || strings.HasPrefix(s.Res, "err:")
+}
+
+func sortedInts(xs []int) []int { ys := append([]int(nil), xs...); sort.Ints(ys); return ys }
+
+var withHealth = true
+var atreeValidation = true
+
+func replay(b *Beh, useVM bool) *Fail {
+	eng := "interp"
+	if useVM {
+		eng = "vm"
+	}
+	w := host.NewWorldWithConfig(cdcrt.Config{AtreeValidationEnabled: atreeValidation})
+	if err := w.Deploy(host.Addr(1), "T", resContract()); err != nil {
+		return &Fail{ID: b.ID, Engine: eng, Kind: "deploy", Harness: true, Msg: err.Error()}
+	}
+	signers := acctAddr[:b.Cfg.Accts]
+	proj := projectionScript(b.Cfg)
+	uuidOf := map[int]uint64{} // committed model id -> uuid
+	var cur []Step
+	inTx := false
+	for si, s := range b.Steps {
+		if s.Op == "init" {
+			continue
+		}
+		if s.Op == "begin" {
+			cur = nil
+			inTx = true
+			continue
+		}
+		if !inTx {
+			return &Fail{ID: b.ID, Engine: eng, Kind: "shape", Harness: true, Step: si, Msg: "step outside a transaction: " + s.Op}
+		}
+		cur = append(cur, s)
+		if !endsTx(s) {
+			continue
+		}
+		inTx = false
+		src := render(b.Cfg, cur)
+		r := w.Tx(src, signers, useVM)
+		fail := func(kind, msg string) *Fail {
+			return &Fail{ID: b.ID, Engine: eng, Kind: kind, Op: s.Op, Form: formOf(s), Step: si, Msg: msg, Src: src, Beh: b}
+		}
+		failAt := func(st Step, kind, msg string) *Fail {
+			f := fail(kind, msg)
+			f.Op, f.Form = st.Op, formOf(st)
+			return f
+		}
+		if host.IsInternal(r.Class) {
+			return fail("internal", r.Class+": "+r.Err.Error())
+		}
+		if isStaticError(r.Err) {
+			f := fail("render", r.Class+": "+r.Err.Error())
+			f.Harness = true
+			return f
+		}
+		wantErr := s.Op != "commit"
+		// per-step logs: compare the common prefix first so that the first diverging step is named
+		var want []string
+		var wantSteps []Step
+		for _, c := range cur {
+			if c.Op == "commit" || c.Op == "abort" || strings.HasPrefix(c.Res, "err:") {
+				break
+			}
+			if c.Op == "borrow" {
+				want = append(want, c.Res)
+				wantSteps = append(wantSteps, c)
+			}
+			if c.Op == "useref" {
+				want = append(want, "use:"+strconv.Itoa(c.V))
+				wantSteps = append(wantSteps, c)
+			}
+			want = append(want, strings.Join(c.St, "|"))
+			wantSteps = append(wantSteps, c)
+		}
+		got := r.Logs
+		for i := 0; i < len(want) && i < len(got); i++ {
+			if want[i] != got[i] {
+				return failAt(wantSteps[i], "state", fmt.Sprintf("after %s %s (log %d): model=%q runtime=%q", wantSteps[i].Op, formOf(wantSteps[i]), i, want[i], got[i]))
+			}
+		}
+		if (r.Err != nil) != wantErr {
+			if r.Err != nil {
+				// name the step after which execution stopped
+				st := s
+				if len(got) < len(wantSteps) {
+					st = wantSteps[len(got)]
+				}
+				return failAt(st, "outcome", fmt.Sprintf("model predicts success, runtime failed with %s after %d of %d logs: %v", r.Class, len(got), len(want), firstErrLine(r.Err)))
+			}
+			return fail("outcome", fmt.Sprintf("model predicts failure %q at %s %s, runtime succeeded", s.Res, s.Op, formOf(s)))
+		}
+		if len(got) != len(want) {
+			st := s
+			if len(got) < len(wantSteps) {
+				st = wantSteps[len(got)]
+			}
+			return failAt(st, "outcome", fmt.Sprintf("model predicts %d completed steps before the end of the transaction, runtime completed %d (%s: %v)", len(want), len(got), r.Class, firstErrLine(r.Err)))
+		}
+		if wantErr {
+			wk := s.Res
+			if s.Op == "abort" {
+				wk = "abort"
+			}
+			if !errKindOK(wk, r.Class) {
+				return fail("errkind", fmt.Sprintf("model predicts %s, runtime failed with %s: %v", wk, r.Class, firstErrLine(r.Err)))
+			}
+			if len(r.Writes) != 0 {
+				return fail("write-on-failure", fmt.Sprintf("failed transaction wrote %d registers", len(r.Writes)))
+			}
+			continue
+		}
+		// ---- committed transaction
+		// creations: one uuid per create, in program order
+		var createdIDs []int
+		for _, c := range cur {
+			if c.Op == "create" || (c.Op == "shift" && c.W == 0) {
+				createdIDs = append(createdIDs, c.U)
+			}
+		}
+		if len(r.UUIDs) != len(createdIDs) {
+			return fail("uuid-count", fmt.Sprintf("model created %d resources, runtime generated %d uuids", len(createdIDs), len(r.UUIDs)))
+		}
+		for i, id := range createdIDs {
+			uuidOf[id] = r.UUIDs[i]
+		}
+		// destroy events: multiset of ids, each with the uuid of that resource
+		var wantEv []string
+		for _, c := range cur {
+			for _, id := range c.Ev {
+				wantEv = append(wantEv, fmt.Sprintf("%d/%d", id, uuidOf[id]))
+			}
+		}
+		var gotEv []string
+		for _, e := range r.Events {
+			if !strings.HasSuffix(e.Type, ".ResourceDestroyed") {
+				continue
+			}
+			id, uu := "?", "?"
+			for i, f := range e.Fields {
+				if f == "id" {
+					id = e.Values[i]
+				}
+				if f == "uuid" {
+					uu = e.Values[i]
+				}
+			}
+			if !strings.HasSuffix(e.Type, "T.R.ResourceDestroyed") {
+				id = e.Type + ":" + id
+			}
+			gotEv = append(gotEv, id+"/"+uu)
+		}
+		sort.Strings(wantEv)
+		sort.Strings(gotEv)
+		if strings.Join(wantEv, ",") != strings.Join(gotEv, ",") {
+			return fail("events", fmt.Sprintf("ResourceDestroyed events (id/uuid) of the transaction: model=%v runtime=%v", wantEv, gotEv))
+		}
+		for _, c := range cur {
+			for _, id := range c.Dead {
+				delete(uuidOf, id)
+			}
+		}
+		// population through a fresh script
+		pr := w.Script(proj, useVM)
+		if pr.Err != nil {
+			if host.IsInternal(pr.Class) {
+				return fail("internal", "population script: "+pr.Class+": "+pr.Err.Error())
+			}
+			return fail("population-script", "population script failed: "+firstErrLine(pr.Err))
+		}
+		var gotPop []string
+		for _, v := range pr.Value.(cadence.Array).Values {
+			gotPop = append(gotPop, string(v.(cadence.String)))
+		}
+		var wantPop []string
+		for _, e := range s.Pop {
+			wantPop = append(wantPop, fmt.Sprintf("%d=%d@%s", e.U, uuidOf[e.U], e.P))
+		}
+		for a := 1; a <= b.Cfg.Accts; a++ {
+			wantPop = append(wantPop, fmt.Sprintf("#paths A%d=%d", a, s.Roots[a-1]))
+		}
+		sort.Strings(gotPop)
+		sort.Strings(wantPop)
+		if strings.Join(gotPop, ";") != strings.Join(wantPop, ";") {
+			return fail("population", fmt.Sprintf("resources in committed storage (id=uuid@location): model=%v runtime=%v", wantPop, gotPop))
+		}
+		if len(uuidOf) != len(s.Pop) {
+			return fail("population", fmt.Sprintf("model has %d live resources, harness tracks %d", len(s.Pop), len(uuidOf)))
+		}
+		// the committed ledger, decoded from scratch
+		if withHealth {
+			rep, herr := health.Inspect(w)
+			if herr != nil {
+				k := "health"
+				if he, ok := herr.(*health.Error); ok {
+					k = "health:" + he.Kind
+				}
+				return fail(k, "committed storage is not healthy: "+herr.Error())
+			}
+			for a := 1; a <= b.Cfg.Accts; a++ {
+				if n := rep.RootCount(acctAddr[a-1], "storage"); n != s.Roots[a-1] {
+					return fail("root-count", fmt.Sprintf("account A%d: model has %d stored root values, ledger has %d", a, s.Roots[a-1], n))
+				}
+			}
+			var gotU, wantU []int
+			for _, res := range rep.Resources {
+				gotU = append(gotU, int(res.UUID))
+			}
+			for _, u := range uuidOf {
+				wantU = append(wantU, int(u))
+			}
+			if fmt.Sprint(sortedInts(gotU)) != fmt.Sprint(sortedInts(wantU)) {
+				return fail("ledger-population", fmt.Sprintf("uuids of resources decoded from the committed ledger: model=%v ledger=%v", sortedInts(wantU), sortedInts(gotU)))
+			}
+		}
+	}
+	return nil
+}
+
+// isStaticError: the program was rejected by the parser or the checker (a renderer problem).
+func isStaticError(err error) bool {
+	if err == nil {
+		return false
+	}
+	var ce *sema.CheckerError
+	if errors.As(err, &ce) {
+		return true
+	}
+	var pe parser.Error
+	if errors.As(err, &pe) {
+		return true
+	}
+	var pce *cdcrt.ParsingCheckingError
+	return errors.As(err, &pce)
+}
+
+func firstErrLine(err error) string {
+	if err == nil {
+		return "<nil>"
+	}
+	for _, l := range strings.Split(err.Error(), "\n") {
+		if strings.HasPrefix(strings.TrimSpace(l), "error:") {
+			return strings.TrimSpace(l)
+		}
+	}
+	s := err.Error()
+	if len(s) > 300 {
+		s = s[:300]
+	}
+	return s
+}
+
+func replayMain(args []string) {
+	if len(args) < 2 {
+		util.Die("usage: res replay behaviours.ndjson results.ndjson [engines] [health=0|1]")
+	}
+	engines := []bool{false, true}
+	for _, a := range args[2:] {
+		if strings.HasPrefix(a, "health=") {
+			withHealth = a == "health=1"
+			continue
+		}
+		if strings.HasPrefix(a, "atree=") {
+			atreeValidation = a == "atree=1"
+			continue
+		}
+		engines = nil
+		for _, e := range strings.Split(a, ",") {
+			engines = append(engines, e == "vm")
+		}
+	}
+	var behs []*Beh
+	err := util.ReadLines(args[0], func(line []byte) error {
+		var b Beh
+		if err := json.Unmarshal(line, &b); err != nil {
+			return err
+		}
+		behs = append(behs, &b)
+		return nil
+	})
+	if err != nil {
+		util.Die("reading behaviours: %v", err)
+	}
+	out := util.NewOut(args[1])
+	defer out.Close()
+	var nfail, ntx, nsteps, ncommit int64
+	util.Parallel(len(behs), runtime.NumCPU(), func(i int) {
+		b := behs[i]
+		for _, vm := range engines {
+			f := func() (f *Fail) {
+				defer func() {
+					if r := recover(); r != nil {
+						f = &Fail{ID: b.ID, Kind: "driver-panic", Harness: true, Msg: fmt.Sprint(r), Beh: b}
+					}
+				}()
+				return replay(b, vm)
+			}()
+			if f != nil {
+				atomic.AddInt64(&nfail, 1)
+				out.Write(f)
+			}
+		}
+		for _, s := range b.Steps {
+			if s.Op == "begin" {
+				atomic.AddInt64(&ntx, 1)
+			}
+			if s.Op == "commit" {
+				atomic.AddInt64(&ncommit, 1)
+			}
+		}
+		atomic.AddInt64(&nsteps, int64(len(b.Steps)))
+	})
+	out.Write(map[string]any{"summary": true, "behaviours": len(behs), "engines": len(engines),
+		"transactions": ntx, "commits": ncommit, "steps": nsteps, "failures": nfail, "health": withHealth})
+	_ = os.Stdout
+}
